@@ -264,6 +264,7 @@ class QuantifiersRemover(engines.engine.Engine, CompilerMixin):
             for g in gl:
                 ng = expression_quantifier_remover.remove_quantifiers(g, problem)
                 new_problem.add_timed_goal(i, ng)
+        new_problem.clear_trajectory_constraints()
         for tc in problem.trajectory_constraints:
             ngc = expression_quantifier_remover.remove_quantifiers(tc, problem)
             if ngc.is_and():
